@@ -17,35 +17,40 @@ def OutEv.line? : OutEv → Option Str
 
 /-- defined for every height the API allows -/
 theorem C12_paging_defined (ls : List Str) (h : Nat) (hh : 3 ≤ h) : (printWidget ls h).isSome = true := by
-  sorry
+  rw [printWidget_of_le ls h hh]; rfl
 
 /-- every content line is printed exactly once and in order -/
 theorem C12_paging_lines (ls : List Str) (h : Nat) (evs : List OutEv) (he : printWidget ls h = some evs) :
     evs.filterMap OutEv.line? = ls := by
-  sorry
+  rw [printWidget_eq_some ls h evs he]
+  exact pages_filterMap OutEv.line? (fun _ => rfl) rfl _ ls
 
 /-- content that fits in `h - 2` lines is printed without any request -/
 theorem C12_paging_short (ls : List Str) (h : Nat) (hh : 3 ≤ h) (hl : ls.length ≤ h - 2) :
     printWidget ls h = some (ls.map .line) := by
-  sorry
+  rw [printWidget_of_le ls h hh, pages_of_short _ _ (Or.inl hl)]
 
 /-- the requests sit exactly after every full page of `h - 2` lines: event number `i` is a request
 iff `i % (h - 1) = h - 2` -/
 theorem C12_paging_ask_positions (ls : List Str) (h : Nat) (hh : 3 ≤ h) (evs : List OutEv)
     (he : printWidget ls h = some evs) (i : Nat) (hi : i < evs.length) :
     evs[i] = .ask ↔ i % (h - 1) = h - 2 := by
-  sorry
+  subst (printWidget_eq_some ls h evs he)
+  have := pages_ask_iff (h - 2) (by omega) ls i hi
+  rwa [show h - 2 + 1 = h - 1 by omega] at this
 
 /-- the last page is not followed by a request -/
 theorem C12_paging_last (ls : List Str) (h : Nat) (hh : 3 ≤ h) (evs : List OutEv)
     (he : printWidget ls h = some evs) : evs.getLast? ≠ some .ask := by
-  sorry
+  rw [printWidget_eq_some ls h evs he]
+  exact pages_getLast?_ne_ask _ ls
 
 /-- the number of requests is `⌈n / (h-2)⌉ - 1` -/
 theorem C12_paging_count (ls : List Str) (h : Nat) (hh : 3 ≤ h) (hne : ls ≠ []) (evs : List OutEv)
     (he : printWidget ls h = some evs) :
     (evs.filter fun e => e == .ask).length = (ls.length - 1) / (h - 2) := by
-  sorry
+  rw [printWidget_eq_some ls h evs he]
+  exact pages_count_ask (h - 2) (by omega) ls
 
 /-! ### the window -/
 
@@ -62,13 +67,13 @@ theorem C12_window (cc : CharClass) (st : WSt) (title : Option Str) (items : Lis
     ∃ (tl : Grid) (items' : List Wd), titleLines cc title w = .ok tl ∧
       items'.length = items.length ∧
       (∀ i, (hi : i < items.length) → (hi' : i < items'.length) → items[i].render cc w = .ok items'[i]) ∧
-      r.lines = tl ++ items'.flatMap Wd.lines := by
-  sorry
+      r.lines = tl ++ items'.flatMap Wd.lines :=
+  window_render_spec cc st title items w r h
 
 /-- a separator of `n` lines renders to `n` empty lines -/
 theorem C12_separator (cc : CharClass) (st : WSt) (n : Nat) (w : Int) (r : Wd)
-    (h : (Wd.sep st n).render cc w = .ok r) : r.lines = List.replicate n [] := by
-  sorry
+    (h : (Wd.sep st n).render cc w = .ok r) : r.lines = List.replicate n [] :=
+  sep_render_lines cc st n w r h
 
 /-! ### the prompt -/
 
@@ -76,31 +81,31 @@ def lookupOpt (opts : List (Str × Str)) (k : Str) : Option Str := (opts.find? f
 
 /-- `add`/`update` then look up: finite-map semantics -/
 theorem C12_prompt_set (opts : List (Str × Str)) (k d k' : Str) :
-    lookupOpt (setOpt opts k d) k' = if k' = k then some d else lookupOpt opts k' := by
-  sorry
+    lookupOpt (setOpt opts k d) k' = if k' = k then some d else lookupOpt opts k' :=
+  find?_setOpt opts k d k'
 
 theorem C12_prompt_remove (p : Prompt) (k k' : Str) :
-    lookupOpt (p.removeOption k).options k' = if k' = k then none else lookupOpt p.options k' := by
-  sorry
+    lookupOpt (p.removeOption k).options k' = if k' = k then none else lookupOpt p.options k' :=
+  find?_filter_ne p.options k k'
 
 /-- keys stay unique -/
 theorem C12_prompt_set_nodup (opts : List (Str × Str)) (k d : Str) (h : (opts.map (·.1)).Nodup) :
-    ((setOpt opts k d).map (·.1)).Nodup := by
-  sorry
+    ((setOpt opts k d).map (·.1)).Nodup :=
+  setOpt_keys_nodup opts k d h
 
 /-- the options are listed sorted by key and are exactly the options currently defined -/
 theorem C12_prompt_sorted (opts : List (Str × Str)) :
-    (sortOpts opts).Perm opts ∧ (sortOpts opts).Pairwise (fun a b => strLt b.1 a.1 = false) := by
-  sorry
+    (sortOpts opts).Perm opts ∧ (sortOpts opts).Pairwise (fun a b => strLt b.1 a.1 = false) :=
+  ⟨sortOpts_perm opts, sortOpts_sorted opts⟩
 
 /-- `str(prompt)`: message, bracketed key-sorted options joined by ", ", then ": " -/
 theorem C12_prompt_str (m : Str) (hm : m ≠ []) (opts : List (Str × Str)) (ho : opts ≠ []) :
     ({ message := some m, options := opts } : Prompt).str =
-      m ++ [' '] ++ (['['] ++ joinStr [',', ' '] ((sortOpts opts).map optStr) ++ [']']) ++ [':', ' '] := by
-  sorry
+      m ++ [' '] ++ (['['] ++ joinStr [',', ' '] ((sortOpts opts).map optStr) ++ [']']) ++ [':', ' '] :=
+  prompt_str_some m hm opts ho
 
 theorem C12_prompt_str_empty : ({ message := none, options := [] } : Prompt).str = [] := by
-  sorry
+  decide
 
 /-! Non-vacuity -/
 example : printWidget ((List.range 7).map fun i => (toString i).toList) 5 =
